@@ -62,6 +62,8 @@ var apiFiles = []treeFile{
 	{Name: "nested-use", Src: "@use(\"~nested\")@insert(\"content\")a layout that uses a layout@end"},
 	{Name: "dotcase", Src: "dot:{{ u.name }}|{{ u.tags }}"},
 	{Name: "poly", Src: "poly:{{ v.len() }}|{{ v }}|@if(v){{ v.len() }}@end"},
+	// number literals that reach ++ / -- (a loaded program is evaluated many times; a literal is the same number every time)
+	{Name: "floatdec", Src: "dec:{{ p = 10.5 }}{{ p-- }}|{{ p }}|@for(x = 2.5; x > 0.0; x--){{ x }};@end|{{ n = 3 }}{{ n++ }}{{ n }}|{{ 1.5-- }}{{ 7++ }}"},
 	// one template, rendered with arrays of different lengths: the loop object of every pass belongs to this render
 	{Name: "lastof", Src: "last:@each(x in xs){{ loop.iter }}{{ x }}{{ loop.last ? \".\" : \",\" }}{{ loop.first ? \"^\" : \"\" }}@end|@for(i = 0; i < xs.len(); i++){{ i }}@end"},
 }
@@ -202,6 +204,7 @@ var fixedSigs = map[apiOp]string{
 	{"String", "bare"}:           "OUT <h></h><b></b><p>100% %d %s %%</p>",
 	{"String", "static"}:         "OUT <p>Bo/3</p><i>Bo/3</i>",
 	{"String", "polyS"}:          "OUT poly:3|abc|3",
+	{"String", "floatdec"}:       "OUT dec:9.5|10.5|2.5;1.5;0.5;|43|0.58",
 	{"String", "lastA"}:          "OUT last:1a.^|0",
 	{"String", "lastB"}:          "OUT last:1a,^2b.|01",
 	{"String", "lastC"}:          "OUT last:1a,^2b,3c.|012",
@@ -697,7 +700,7 @@ func cmdRace(args []string) int {
 	w := bufio.NewWriter(f)
 	defer w.Flush()
 	allOps := []apiOp{{"String", "ok"}, {"String", "ok2"}, {"String", "ok2"}, {"String", "bare"}, {"String", "static"}, {"String", "polyS"}, {"String", "polyA"}, {"String", "polyI"},
-		{"String", "lastA"}, {"String", "lastC"},
+		{"String", "lastA"}, {"String", "lastC"}, {"String", "floatdec"},
 		{"String", "bad"}, {"String", "missing"}, {"Response", "ok"}, {"Response", "bad"},
 		{"Response", "missing"}, {"EvalString", "ok"}, {"EvalString", "bad"}, {"EvalFile", "ok"}}
 	cfgs := []apiCfg{{"t", ".tw", "", false}, {"t", ".tw", "err", false}, {"t", ".tw", "", true}, {"t", ".tw", "err", true}}
